@@ -42,7 +42,7 @@ SCHED = [("R01", sched.r01_next_pull), ("R02", sched.r02_sched_agree), ("R03", s
 CONNECT = [("R10", life.r10_stall), ("R10b", life.r10b_mustconnect), ("R11", connect.r11_r12_connect), ("R11r", connect.r11r_rules),
            ("R13", connect.r13_nodata), ("R14", connect.r14_doublepush), ("R06s", life.r06s_start_time)]
 LIFE = [("R06", life.r06_life), ("R07", life.r07_status), ("R08", life.r08_advance)]
-LINKDATA = [("R17", buffer.r17_nearest), ("R17p", link.r17_pushpath), ("R18", link.r18_pullpath), ("R18s", link.r18s_shape), ("R20", link.r20_target),
+LINKDATA = [("R39", buffer.r39_static), ("R17", buffer.r17_nearest), ("R17p", link.r17_pushpath), ("R18", link.r18_pullpath), ("R18s", link.r18s_shape), ("R20", link.r20_target),
             ("R21", buffer.r21_evict), ("R04", buffer.r04_cmp)]
 SPILL = [("R22", spill.r22_pack), ("R23", spill2.r23s_finalize), ("R24", spill2.r24s_format), ("R25", spill2.r25s_pack)]
 TIMEAD = [("R26", buffer.r26_buffer), ("R27", buffer.r27_interp), ("R27c", buffer.r27c_constructors), ("R30", link.r30_delay)]
@@ -51,7 +51,7 @@ GRID = [("R31", grid.r31_memo), ("R32", grid.r32_gridsib), ("R32b", grid.r32b_in
         ("R32d", grid.r32d_cellcorners),
         ("R33", grid.r33_mirror), ("R34", grid.r34_transdir), ("R19", grid.r19_taxis), ("R15g", data.r15g_gridcompat)]
 META = [("R15", data.r15_fields), ("R15c", data.r15c_copy_with), ("R16", data.r16_getinfo), ("R16u", data.r16u_delivered_units), ("R37", data.r37_masktable),
-        ("R37e", data.r37e_masks_equal_layout), ("R41", misc.r41_masktruth)]
+        ("R37e", data.r37e_masks_equal_layout), ("R37p", data.r37p_prepare_mask), ("R41", misc.r41_masktruth)]
 REGRID = [("R35", data.r35_regrid), ("R35b", misc.r35b_specside), ("R33c", data.r33c_compress)]
 UNITS = [("R36", data.r36_units)]
 VALID = [("R38", valid.r38_valid)]
@@ -77,7 +77,7 @@ RULES = {
     "C07": _u(META, ("R11", connect.r11_r12_connect), ("R11r", connect.r11r_rules), ("R13", connect.r13_nodata),
               ("R34", grid.r34_transdir), ("R15g", data.r15g_gridcompat), ("R36", data.r36_units), ("R35b", misc.r35b_specside)),
     "C08": _u(LINKDATA, ("R19", grid.r19_taxis), ("R33", grid.r33_mirror), ("R34", grid.r34_transdir), ("R15g", data.r15g_gridcompat),
-              UNITS, ("R16u", data.r16u_delivered_units), ("R37", data.r37_masktable), ("R37e", data.r37e_masks_equal_layout), ("R22", spill.r22_pack), ("R25", spill2.r25s_pack),
+              UNITS, ("R16u", data.r16u_delivered_units), ("R37", data.r37_masktable), ("R37p", data.r37p_prepare_mask), ("R37e", data.r37e_masks_equal_layout), ("R22", spill.r22_pack), ("R25", spill2.r25s_pack),
               ("R24", spill2.r24s_format)),
     "C09": _u(("R20", link.r20_target), ("R21", buffer.r21_evict), ("R17", buffer.r17_nearest), ("R17p", link.r17_pushpath), SPILL,
               VALID, TIMEAD, INTEG),
@@ -90,11 +90,12 @@ RULES = {
               ("R32d", grid.r32d_cellcorners),
               ("R33", grid.r33_mirror), ("R15g", data.r15g_gridcompat)),
     "C15": _u(("R19", grid.r19_taxis), ("R33", grid.r33_mirror), ("R34", grid.r34_transdir), ("R15g", data.r15g_gridcompat),
-              ("R32", grid.r32_gridsib), ("R18", link.r18_pullpath), ("R37e", data.r37e_masks_equal_layout)),
+              ("R32", grid.r32_gridsib), ("R18", link.r18_pullpath), ("R37e", data.r37e_masks_equal_layout), ("R39", buffer.r39_static),
+              ("R20", link.r20_target)),
     "C16": _u(REGRID, ("R32c", grid.r32c_cellcenters), ("R32", grid.r32_gridsib), ("R32b", grid.r32b_indexspace), ("R32d", grid.r32d_cellcorners),
               ("R41", misc.r41_masktruth), ("R37", data.r37_masktable), ("R16", data.r16_getinfo)),
     "C17": _u(UNITS, ("R18", link.r18_pullpath), ("R15", data.r15_fields), ("R16u", data.r16u_delivered_units), ("R24", spill2.r24s_format)),
-    "C18": _u(("R37", data.r37_masktable), ("R37e", data.r37e_masks_equal_layout), ("R33c", data.r33c_compress), UNITS,
+    "C18": _u(("R37", data.r37_masktable), ("R37e", data.r37e_masks_equal_layout), ("R37p", data.r37p_prepare_mask), ("R33c", data.r33c_compress), UNITS,
               ("R15", data.r15_fields), ("R41", misc.r41_masktruth)),
     "C19": _u(VALID, ("R06", life.r06_life), ("R20", link.r20_target)),
     "C20": _u(STATIC, ("R03", sched.r03_r09_step), ("R09", sched.r09_structure), ("R02", sched.r02_sched_agree), ("R17p", link.r17_pushpath),
